@@ -439,4 +439,4 @@ def _lz(mod, fn, rid):
     return run
 
 # a stub in the wrong layer is a second item of that layer at the label's own position: the chain rules of C04 are part of C01
-RULES = [sort_rule, chain_rule, gap_rule, opts_rule, stubpred, solve_rule, writeback, lastwriter, alllayers, _target, _reset, state_rule] + vpsc_pack.FEAS + [_lz("c04", "stubchain_instance", "C04.STUBCHAIN"), _lz("c04", "stubchain", "C04.STUBCHAIN-ALL-N")]
+RULES = [sort_rule, chain_rule, gap_rule, opts_rule, stubpred, solve_rule, writeback, lastwriter, alllayers, _target, _reset, state_rule] + vpsc_pack.FEAS + [_lz("c04", "stubchain_instance", "C04.STUBCHAIN"), _lz("c04", "stubchain", "C04.STUBCHAIN-ALL-N"), _lz("c03", "layerwidth", "C03.LAYERWIDTH")]
